@@ -523,6 +523,7 @@ func checkC13(w *World, r *Report) {
 	countArithRule(w, r, e, "C13.count-arith")
 	siblingDomainRule(w, r, "C13.sibling-domain")
 	seqErrorUsedRule(w, r, e, "C13.seq-errors")
+	okFlagUsedRule(w, r, e, "C13.ok-flag")
 	keyContentRule(w, r, "C13.key-content")
 	loopErrorRule(w, r, "C13.loop-errors", func(fn *ssa.Function) bool {
 		return strings.HasPrefix(fnPkgPath(fn), modPath+"/lib/") || fnPkgPath(fn) == modPath+"/types"
@@ -1274,6 +1275,7 @@ func checkC17(w *World, r *Report) {
 	textIntactRule(w, r, "C17.text-intact")
 	moduleAsGivenRule(w, r, e, "C17.module")
 	fabricatedPositionRule(w, r, "C17.no-made-up-position")
+	carrierNotBoundRule(w, r, e, "C17.carrier-not-bound")
 	if rf := w.Fn("reader", "read_form"); rf != nil {
 		nm, okAll := 0, true
 		for _, fn := range w.pkgFuncs("reader") {
@@ -1538,6 +1540,12 @@ func checkC19(w *World, r *Report) {
 	// one by one only if do evaluates every form, in order, whatever kind of form it is
 	r.include("C19.do-", "C01.", "forms fed one by one, wrapped in a single do, or loaded from a file are the same program: do evaluates each of its forms once, in order", checkC01, func(rule string) bool {
 		return rule == "C01.body" || rule == "C01.order" || rule == "C01.once"
+	})
+	// what a handler is handed does not depend on positions: the text of a lisp error names module, rows and
+	// columns, its value does not; and an error that crosses a module boundary (a loaded file) is re-positioned,
+	// not wrapped once more, so the value the program threw is the value the program catches on every route
+	r.include("C19.caught-", "C03.", "catch binds the thrown value itself on every delivery route: never the positioned text of a lisp error, and never a wrapper whose presence depends on which module the error came from", checkC03, func(rule string) bool {
+		return rule == "C03.object"
 	})
 	// what a program means does not depend on which environment of the process was prepared last
 	r.include("C19.process-", "C11.", "eval and load-file evaluate in the environment they were registered in: no package-level variable stands in for it", checkC11, func(rule string) bool {
@@ -1960,6 +1968,9 @@ func checkC20(w *World, r *Report) {
 		r.undecided("C20.siblings", nil, "binder helpers", token.NoPos, "a helper of the binder no longer resolves")
 		return
 	}
+	exactArgsRule(w, r, e, "C20.exact-args", callFn, []*ssa.Function{args, argsCtx})
+	r.rule("C20.chain-kept", "wherever the library puts an error into a new message it does so with %w: the error a bound function returned, or the one made from its panic, stays reachable with errors.Is / errors.As through every caller of bound functions (evaluator, apply, the reader's constructors)")
+	ruleWrapAs(w, r, "C20.chain-kept")
 	adapterFor := map[int64]*ssa.Function{0: nilnil, 1: nilerr, 2: reserr}
 	// regions: NumOut() == k ; contextRequired true/false
 	var numOut ssa.Value
@@ -5004,45 +5015,93 @@ func builtinRepositionRule(w *World, r *Report, e *Engine, rule string) {
 		return
 	}
 	n := 0
+	isRepositioned := func(ev ssa.Value) bool {
+		if mi, ok := ev.(*ssa.MakeInterface); ok {
+			if nc, ok := mi.X.(*ssa.Call); ok && nc.Call.StaticCallee() == nle {
+				return true
+			}
+		}
+		if nc, ok := ev.(*ssa.Call); ok {
+			if _, isDeco := errDecorator(nc.Call.StaticCallee()); isDeco {
+				return true
+			}
+		}
+		return false
+	}
+	// every return of fn whose error comes from the call c: repositioned there, or - in a function of the package
+	// that the application region calls - handed back to be repositioned by the caller
+	var follow func(fn *ssa.Function, c *ssa.Call, depth int)
+	follow = func(fn *ssa.Function, c *ssa.Call, depth int) {
+		errEx := extractOf(c, 1)
+		if errEx == nil || depth > 3 {
+			return
+		}
+		for _, rt := range m.returns(fn) {
+			ret := rt[0].(*ssa.Return)
+			ev, _ := rt[2].(ssa.Value)
+			if ev == nil || isNilConst(ev) || !(c.Block() == ret.Block() || c.Block().Dominates(ret.Block())) || !derivesFromErr(ev, errEx, 0) {
+				continue
+			}
+			if isRepositioned(ev) {
+				n++
+				r.check(true, rule, fn, "error of a failing builtin call", ret.Pos(), "positioned at the call form (NewLispError(err, form))", "")
+				continue
+			}
+			if fn != m.EVAL {
+				sites := 0
+				for _, site := range e.callSites(fn) {
+					sc, ok := site.(*ssa.Call)
+					if !ok || site.Parent() == nil || site.Parent().Pkg != m.EVAL.Pkg || isTestFunc(w, site.Parent()) {
+						continue
+					}
+					sites++
+					follow(site.Parent(), sc, depth+1)
+				}
+				if sites > 0 {
+					continue
+				}
+			}
+			n++
+			r.check(false, rule, fn, "error of a failing builtin call", ret.Pos(), "positioned at the call form (NewLispError(err, form))", "on this path the error a builtin returned leaves EVAL as it came: if it carries coordinates of its own (a library callback, text read by the builtin) the failure is reported there, not at the failing call of the program")
+		}
+	}
+	isBuiltinCall := func(in ssa.Instruction) *ssa.Call {
+		c, ok := in.(*ssa.Call)
+		if !ok || c.Call.StaticCallee() != nil || c.Call.IsInvoke() {
+			return nil
+		}
+		if _, isB := c.Call.Value.(*ssa.Builtin); isB {
+			return nil
+		}
+		if c.Call.Signature().Results().Len() != 2 {
+			return nil
+		}
+		return c
+	}
+	seenH := map[*ssa.Function]bool{}
 	for _, b := range m.EVAL.Blocks {
 		if !m.defaultRegion[b] {
 			continue
 		}
 		for _, in := range b.Instrs {
-			c, ok := in.(*ssa.Call)
-			if !ok || c.Call.StaticCallee() != nil || c.Call.IsInvoke() {
+			if c := isBuiltinCall(in); c != nil {
+				follow(m.EVAL, c, 0)
 				continue
 			}
-			if _, isB := c.Call.Value.(*ssa.Builtin); isB {
-				continue
-			}
-			if c.Call.Signature().Results().Len() != 2 {
-				continue
-			}
-			errEx := extractOf(c, 1)
-			if errEx == nil {
-				continue
-			}
-			// every return whose error comes from this call
-			for _, rt := range m.returns(m.EVAL) {
-				ret := rt[0].(*ssa.Return)
-				ev, _ := rt[2].(ssa.Value)
-				if ev == nil || isNilConst(ev) || !(c.Block() == ret.Block() || c.Block().Dominates(ret.Block())) || !derivesFromErr(ev, errEx, 0) {
+			// a function of the package that makes the call for the application region
+			if sc, ok := in.(*ssa.Call); ok {
+				h := sc.Call.StaticCallee()
+				if h == nil || h.Pkg != m.EVAL.Pkg || h == m.EVAL || m.isCore(h) || seenH[h] || len(h.Blocks) == 0 {
 					continue
 				}
-				n++
-				repositioned := false
-				if mi, ok := ev.(*ssa.MakeInterface); ok {
-					if nc, ok := mi.X.(*ssa.Call); ok && nc.Call.StaticCallee() == nle {
-						repositioned = true
+				seenH[h] = true
+				for _, hb := range h.Blocks {
+					for _, hin := range hb.Instrs {
+						if c := isBuiltinCall(hin); c != nil {
+							follow(h, c, 0)
+						}
 					}
 				}
-				if nc, ok := ev.(*ssa.Call); ok {
-					if _, isDeco := errDecorator(nc.Call.StaticCallee()); isDeco {
-						repositioned = true
-					}
-				}
-				r.check(repositioned, rule, m.EVAL, "error of a failing builtin call", ret.Pos(), "positioned at the call form (NewLispError(err, form))", "on this path the error a builtin returned leaves EVAL as it came: if it carries coordinates of its own (a library callback, text read by the builtin) the failure is reported there, not at the failing call of the program")
 			}
 		}
 	}
